@@ -561,7 +561,11 @@ def o13_join_pairs_by_equality(prog, ctx):
         if fld is None:
             continue
         n += 1
-        if c.j["callee"] == "strcmp":
+        if a[0] == a[1]:
+            ctx.fail("O13", "the join pairs entries by equal %s" % fld, c.where,
+                     "`%s` compares an entry with itself: every later entry is taken for another definition of the key and joined into it" % render(c)[:70],
+                     key="join-compare-self:%s" % fld)
+        elif c.j["callee"] == "strcmp":
             ctx.ok("O13", "the join pairs entries by equal %s" % fld, c.where, render(c)[:70])
         else:
             ctx.fail("O13", "the join pairs entries by equal %s" % fld, c.where,
